@@ -13,7 +13,7 @@ COMPOSITES = ["Product", "Sum", "Kronecker", "KronSum", "BlockDiag", "Transpose"
 
 class Opts:
     def __init__(self, dtmode="f8", kinds=None, exclude=(), max_dim=12, clean=True, vias=("ctor", "fn"),
-                 scalar_pool=None, leaf_gen="int", identity_dt=None):
+                 scalar_pool=None, leaf_gen="int", identity_dt=None, routines=0.0):
         self.dtmode = dtmode
         self.kinds = kinds
         self.exclude = set(exclude)
@@ -25,6 +25,9 @@ class Opts:
         # open finding (C01 Product/identity_factor): `A @ I` drops I, so an Identity *wider* than its co-factors does
         # not contribute to the dtype; workloads that are not about this pin Identity leaves to the narrowest dtype
         self.identity_dt = identity_dt
+        # probability that a (small) leaf position is filled by the *result of a cola routine* on a well-conditioned argument
+        # (lazy inverse / pseudo-inverse, matrix function, Cholesky factor, product of plu / svd factors): DESIGN 4.25
+        self.routines = routines
 
     def ok(self, k):
         return (self.kinds is None or k in self.kinds) and k not in self.exclude
@@ -134,6 +137,12 @@ def partition(rng, total, mults, tries=30):
 
 
 def gen_leaf(rng, m, n, o):
+    if o.routines and rng.random() < o.routines and min(m, n) >= 1 and max(m, n) <= 6 and abs(m - n) <= 2:
+        from harness import wellcond as W
+        dt = leaf_dt(rng, o)
+        if m == n:
+            return W.gen_routine(rng, dt, n)
+        return W.gen_routine(rng, dt, min(m, n), fns=["pinv"], shape=[m, n])
     cands = [k for k in ANY_LEAVES if o.ok(k)]
     if m == n:
         cands += [k for k in SQUARE_LEAVES if o.ok(k)]
